@@ -194,7 +194,7 @@ def instantiate(case):
     if u == "len-249":
         right = RIGHT["l" * 249]
     pw = {"right": right, "wrong": b"this is not it", "empty": b"", "right-plus-space": right + b" ", "right-minus-last": right[:-1],
-          "case-flipped": right.swapcase() if right.swapcase() != right else right + b"X", "other-users-password": RIGHT["bob"] if key != "bob" else RIGHT["alice"]}.get(p, right)
+          "case-flipped": right.swapcase() if right.swapcase() != right else right + b"X", "other-users-password": RIGHT["bob"] if key != "bob" else RIGHT["alice"], "right-nul-tail": right + b"\x00zz"}.get(p, right)
     return user, pw
 
 
